@@ -97,10 +97,16 @@ def parse_mutant(path):
 def sensitivity(only, short: bool) -> bool:
     ok = True
     patches = sorted(glob.glob(os.path.join(VERIF, "selftest", "mutants", "*.patch")))
+    # changes written by independent sub-agents (see DESIGN.md section 9): /verif/seeded/<name>/patch.diff + meta.json
+    patches += sorted(glob.glob(os.path.join(VERIF, "seeded", "*", "patch.diff")))
     if only:
-        patches = [p for p in patches if any(o in os.path.basename(p) for o in only)]
+        patches = [p for p in patches if any(o in p[len(VERIF):] for o in only)]
     for p in patches:
         meta = parse_mutant(p)
+        if p.endswith("patch.diff"):
+            mj = json.load(open(os.path.join(os.path.dirname(p), "meta.json")))
+            meta.update({"property": mj["property"], "expect": mj.get("expect", mj["property"] + "-"),
+                         "tier": mj.get("tier", "quick"), "runs": mj.get("runs")})
         cid = meta["property"]
         harmless = (meta["expect"] == "NONE")
         d = _scratch_copy()
@@ -108,12 +114,12 @@ def sensitivity(only, short: bool) -> bool:
         try:
             r = subprocess.run(["patch", "-p1", "-s", "-d", d, "-i", p], capture_output=True, text=True)
             if r.returncode != 0:
-                print(f"  mutant {os.path.basename(p)}: patch does not apply: {r.stdout}{r.stderr}")
+                print(f"  mutant {p[len(VERIF) + 1:]}: patch does not apply: {r.stdout}{r.stderr}")
                 ok = False
                 continue
             cmd = [CHECK, cid, "--tier", meta["tier"], "--no-evidence"]
             if meta["runs"]:
-                cmd += ["--runs", meta["runs"]]
+                cmd += ["--runs", str(meta["runs"])]
             rc, text = _run(cmd, env={"VERIF_REPO": d})
             vio = re.findall(r"VIOLATION property=(\S+) replay=(\S+)", text)
             classes = re.findall(r"class=(\S+) seed=", text)
@@ -134,7 +140,7 @@ def sensitivity(only, short: bool) -> bool:
                 rc3, _ = _run([CHECK, cid, "--replay", vio[0][1]])
                 replay_ok = replay_ok and rc3 == 0
                 good = good and replay_ok
-            print(f"  mutant {os.path.basename(p)} [{cid}]: rc={rc} classes={classes} expected={meta['expect']} "
+            print(f"  mutant {p[len(VERIF) + 1:]} [{cid}]: rc={rc} classes={classes} expected={meta['expect']} "
                   f"replay_reproduces={replay_ok} -> {'caught' if good else 'MISSED'} ({time.monotonic()-t0:.0f}s)")
             if not good:
                 print("    " + "\n    ".join(text.strip().splitlines()[-6:]))
